@@ -754,6 +754,11 @@ fn sub_corrupt(c: &mut Case, fmt: Fmt) -> CaseResult {
                 // string validation and dictionary value types follow the Parquet converted type, the array type follows the
                 // Arrow schema. Only when the corrupted file's two schemas really disagree on a string column is an unvalidated
                 // string / mistyped dictionary attributed to that root cause (one signature); otherwise it keeps its own.
+                // Known finding C08-non-nullable-null-typed-child: ArrayData validation counts physical nulls only, so a
+                // non-nullable field of type Null with rows passes although the typed constructors reject it
+                if f.sig.contains("non-nullable child of type Null") {
+                    return Err(Fail::new("reader:non-nullable-null-typed-child", f.msg));
+                }
                 let stringy = f.sig.contains("is not valid UTF-") || f.sig.contains("not valid UTF-") || f.sig.contains("dictionary values type mismatch");
                 if matches!(fmt, Fmt::Parquet | Fmt::ParquetDict) && stringy && catch(|| parquet_schemas_disagree(&data)).unwrap_or(false) {
                     return Err(Fail::new("parquet:string-type-from-arrow-schema-validation-from-converted-type", f.msg));
